@@ -456,6 +456,8 @@ def _all_concrete(v):
 def contains(ex, container, item, node):
     if hasattr(container, "sx_contains"):
         return container.sx_contains(ex, item, node)
+    if hasattr(item, "sx_in"):
+        return item.sx_in(ex, container, node)
     if isinstance(container, (tuple, list, str, dict)) and _all_concrete(item):
         if isinstance(container, dict) or _all_concrete(container):
             return item in container
